@@ -138,9 +138,14 @@ bool hazard_eras<Traits>::guard_ptr<T, MarkedPtr>::acquire_if_equal(const concur
   // we have to use acquire here to ensure that the subsequent era_clock.load
   // sees a value >= p.construction_era
   auto p1 = p.load(order);
-  if (p1 == nullptr || p1 != expected) {
+  if (p1.get() == nullptr || p1 != expected) {
+    // a null pointer needs no protection - even if it carries a mark
     reset();
-    return p1 == expected;
+    if (p1 == expected) {
+      this->ptr = p1;
+      return true;
+    }
+    return false;
   }
 
   const auto era = era_clock.load(std::memory_order_relaxed);
